@@ -287,5 +287,5 @@ EXTRA_MODULES = ['c17b']      # _local_population: what it computes, for every n
 LEAN_LEMMAS = "lemmas/lean/Lemmas.lean"
 EVIDENCE_LEVEL = 'exploration'
 TRUSTED = ["the property as a whole is bounded (invariances, finite positive-definite bandwidths, effdim, the localisation bisection): independent numpy oracle (mixture recomputed from the fitted state, brute-force nearest-grid assignment and weight sums)",
-           "proved part: the assignment loop (labels nearest, counts and weights = prefix sums, total preserved), _local_population (Gaussian of the minimum-image squared distance times the grid weight, population = their sum, caller arrays untouched), the local covariance (_covariance in free space: weighted outer products of the centred points with the unbiasing factor, symmetric), the OAS shrinkage (formula, keeps symmetry), the assembly of one bandwidth (Silverman factor times the shrunk local covariance, effective dimension from the unshrunk one; EVERY BANDWIDTH MATRIX IS SYMMETRIC), the per-grid-point localisation loop _computes_localized_bandwidth and the spread tuning (which population is measured where, which tuning is taken when, what is estimated from what and stored where), the cached properties _bandwidth_inv / _normkernels (entry j = inverse / d log 2pi + log|det| of the bandwidth of grid point j, computed once, served from the cache afterwards, unavailable before fit), and the plumbing (what fit passes to the assigner / the bandwidth estimation, cache reset, score = sum of score_samples, rejects); effdim (eigenvalues), the TERMINATION of the bisection inside the tuning by the fraction of points (its partial correctness is proved; recorded finding), the periodic branch of _covariance, positive definiteness / finiteness of the bandwidths are NOT under deductive contracts; the mixture loop IS (score_samples = log of the documented mixture, for every input: contracts/c17b.py)",
+           "proved part: the assignment loop (labels nearest, counts and weights = prefix sums, total preserved), _local_population (Gaussian of the minimum-image squared distance times the grid weight, population = their sum, caller arrays untouched), the local covariance (_covariance in free space: weighted outer products of the centred points with the unbiasing factor, symmetric), the OAS shrinkage (formula, keeps symmetry), the assembly of one bandwidth (Silverman factor times the shrunk local covariance, effective dimension from the unshrunk one; EVERY BANDWIDTH MATRIX IS SYMMETRIC), the per-grid-point localisation loop _computes_localized_bandwidth and the spread tuning (which population is measured where, which tuning is taken when, what is estimated from what and stored where), the cached properties _bandwidth_inv / _normkernels (entry j = inverse / d log 2pi + log|det| of the bandwidth of grid point j, computed once, served from the cache afterwards, unavailable before fit), and the plumbing (what fit passes to the assigner / the bandwidth estimation, cache reset, score = sum of score_samples, rejects); what LAPACK computes for the eigenvalues inside effdim (its formula over them IS proved), the TERMINATION of the bisection inside the tuning by the fraction of points (its partial correctness is proved; recorded finding), the periodic branch of _covariance, positive definiteness / finiteness of the bandwidths are NOT under deductive contracts; the mixture loop IS (score_samples = log of the documented mixture, for every input: contracts/c17b.py)",
            "finite-sum functionals SUMARR / PSUM / SUMSEL / CNTSEL with their recursion laws; two of the laws used are machine-checked as Lean theorems over Finset sums: sum_update_add (adding d to one entry adds d to the sum) and fibre_sums_total (the per-grid-point sums of the assigned weights total the descriptor weights)"]
